@@ -12,6 +12,8 @@ pub enum WOp {
     Clear(usize),
     Batch(Option<Mode>, Vec<(usize, Vec<u8>, Option<Vec<u8>>)>),
     Persist(Mode),
+    /// journal rotation (`Writer::rotate` through the verif hook): seals the active journal
+    RotateJournal,
 }
 
 #[derive(Clone, Debug)]
@@ -29,7 +31,10 @@ fn val(r: &mut Rng) -> Vec<u8> {
 }
 fn mode(r: &mut Rng) -> Mode { match r.below(3) { 0 => Mode::Buffer, 1 => Mode::SyncData, _ => Mode::SyncAll } }
 
-pub fn gen(seed: u64) -> Workload {
+pub fn gen(seed: u64) -> Workload { gen_with(seed, false) }
+
+/// `rotations`: workloads for the power-loss check (C09) also rotate the journal
+pub fn gen_with(seed: u64, rotations: bool) -> Workload {
     let mut r = Rng::new(seed);
     let nks = r.range(1, 2);
     let n = r.range(3, 14);
@@ -54,6 +59,7 @@ pub fn gen(seed: u64) -> Workload {
                 let dur = match r.below(4) { 0 => None, _ => Some(mode(&mut r)) };
                 WOp::Batch(dur, items)
             }
+            9 if rotations && r.chance(1, 2) => WOp::RotateJournal,
             _ => WOp::Persist(mode(&mut r)),
         });
     }
